@@ -130,20 +130,7 @@ fn confirmed_case(sender_kind: u8, with_remove: bool) {
 #[kani::proof]
 #[kani::unwind(12)]
 fn c13_confirmed_transcript_hash_bounded_2() {
-    let with_remove: bool = kani::any();
-    let k: u8 = kani::any();
-    kani::assume(k < 4);
-    let mut i = 0;
-    while i < 4 {
-        if k == i {
-            if with_remove {
-                confirmed_case(i, true);
-            } else {
-                confirmed_case(i, false);
-            }
-        }
-        i += 1;
-    }
+    for_each_bool(|with_remove| for_each_below(4, |k| confirmed_case(k as u8, with_remove)));
 }
 
 // interim_transcript_hash = Hash(confirmed_transcript_hash || opaque confirmation_tag<V>);
